@@ -1,4 +1,5 @@
 import Secp.Proofs.Adaptor
+import Secp.Props.C03
 /-
   Props/C15 — the crypto/elliptic adaptor agrees with the group law (and with crypto/ecdsa).
   Model: `Secp.Model.adaptorAdd/adaptorDouble/adaptorScalarMult/adaptorBaseMult/adaptorIsOnCurve`
@@ -35,5 +36,23 @@ theorem scalarBaseMult_spec (hp : PointSpec) (k : Bytes) :
 /-- IsOnCurve is true exactly for curve points (coordinates in [0,P)) -/
 theorem isOnCurve_iff (x y : Nat) (hx : x < P) (hy : y < P) : adaptorIsOnCurve x y = true ↔ OnCurve x y :=
   Secp.Proofs.Adaptor.isOnCurve_iff x y hx hy
+
+/-! ### unconditional forms -/
+
+theorem add_spec_unconditional (p q : Nat × Nat) (hP : Operand p) (hQ : Operand q) :
+    adaptorAdd p q = xyOfPt (Pt.add (ptOfXY p) (ptOfXY q)) :=
+  add_spec Secp.Props.C03.pointSpec p q hP hQ
+
+theorem scalarMult_spec_unconditional (p : Nat × Nat) (k : Bytes) (hP : OnCurve p.1 p.2) :
+    adaptorScalarMult p k = xyOfPt (smul (beNat k % N) (some p)) :=
+  scalarMult_spec Secp.Props.C03.pointSpec p k hP
+
+theorem scalarBaseMult_spec_unconditional (k : Bytes) :
+    adaptorBaseMult k = xyOfPt (smul (beNat k % N) G) :=
+  scalarBaseMult_spec Secp.Props.C03.pointSpec k
+
+theorem double_spec_unconditional (p : Nat × Nat) (hP : Operand p) :
+    adaptorDouble p = xyOfPt (Pt.dbl (ptOfXY p)) :=
+  double_spec Secp.Props.C03.pointSpec Secp.Props.C04.pointOps p hP
 
 end Secp.Props.C15
